@@ -5,12 +5,12 @@
 V=$(cd "$(dirname "$0")/.." && pwd)
 P=$(readlink -f "${1:?patch}"); ID=${2:?property}; WT=${3:-/tmp/wt-try-$ID}; shift 2; [ $# -gt 0 ] && shift
 [ -d "$WT" ] || git -C /repo worktree add --detach "$WT" HEAD >/dev/null 2>&1 || { echo "cannot create worktree $WT"; exit 2; }
-git -C "$WT" checkout -q -- . ; git -C "$WT" clean -fdq
+git -C "$WT" reset -q --hard; git -C "$WT" clean -fdq
 git -C "$WT" apply "$P" 2>/dev/null || git -C "$WT" apply -3 "$P" >/dev/null 2>&1 || { echo "patch does not apply"; exit 2; }
 out=$(VERIF_REPO="$WT" "$V/vcheck" "$ID" --tier quick "$@" 2>&1); rc=$?
 classes=$(echo "$out" | grep -o "class=[a-z0-9-]*" | sort | uniq -c | sort -rn | awk '{printf "%s(%s) ", $2, $1}')
 echo "$(basename "$(dirname "$P")") $ID exit=$rc ${classes:-none}"
 [ $rc = 2 ] && echo "$out" | tail -15
 [ -n "${TRYSEED_LOG:-}" ] && echo "$out" > "$TRYSEED_LOG"
-git -C "$WT" checkout -q -- . ; git -C "$WT" clean -fdq
+git -C "$WT" reset -q --hard; git -C "$WT" clean -fdq
 exit 0
